@@ -20,6 +20,7 @@
 #include <cstring>
 #include <cstdlib>
 #include <cmath>
+#include <cfloat>
 #include <sys/uio.h>
 
 #include "meta.h"
@@ -435,6 +436,55 @@ static void case_assign(uint64_t idx)
 	src->release();
 	vf_sample("%s", what);
 }
+
+/* ------------------------------------------- two-coordinate properties */
+/* graph pos / position, text pos: [0,1] per coordinate; graph scale: [0,FLT_MAX] (ranges written in the setters) */
+static const struct { int k; const char *set, *get; float min, max; } fprops[] = {
+	{ KGraph, "pos", "pos", 0, 1 }, { KGraph, "position", "pos", 0, 1 }, { KGraph, "scale", "scale", 0, FLT_MAX }, { KText, "pos", "pos", 0, 1 }
+};
+#define NFVAL 7
+static float fp_value(int p, int i)
+{
+	static const float unit[NFVAL] = { -0.5f, -1e-6f, 0, 0.5f, 1, 1.0000001f, 1.5f };
+	static const float scale[NFVAL] = { -1, -1e-30f, 0, 2, 1e30f, FLT_MAX, 0.25f };
+	return fprops[p].max > 1 ? scale[i] : unit[i];
+}
+static uint64_t fpoint_count() { return 4 * NFVAL * NFVAL; }
+static void case_fpoint(uint64_t idx)
+{
+	int yi = (int) (idx % NFVAL), xi = (int) (idx / NFVAL % NFVAL), p = (int) (idx / NFVAL / NFVAL);
+	float x = fp_value(p, xi), y = fp_value(p, yi);
+	bool expect_ok = x >= fprops[p].min && x <= fprops[p].max && y >= fprops[p].min && y <= fprops[p].max;
+	Obj *o = make(fprops[p].k);
+	char txt[80], what[200];
+	o->obj().set("lpos", "r", 0);
+	Snap before = snap(o->obj(), o->kind);
+	int t = find(before, fprops[p].get);
+	VF_CHECK(t >= 0, "cxx:get:name-missing", "%s: property '%s' is not listed", o->kind, fprops[p].get);
+	snprintf(txt, sizeof(txt), "%.9g %.9g", x, y);
+	snprintf(what, sizeof(what), "%s::set(\"%s\", \"%s\")", o->kind, fprops[p].set, txt);
+	std::string ctx = what;
+	vf_log("%s", what);
+	vf_fp_u64(0xf9); vf_fp_u64(idx);
+	vf_nontrivial();
+	vf_at("object::set");
+	bool ok = o->obj().set(fprops[p].set, txt, 0);
+	vf_count("object::set", 1);
+	vf_count("monitor:fpoint-grid", 1);
+	Snap after = snap(o->obj(), o->kind);
+	if (!ok) {
+		VF_CHECK(!expect_ok, "cxx:set:refused-in-range-point", "%s refused, both coordinates are inside [%.9g,%.9g]", what, fprops[p].min, fprops[p].max);
+		same(before, after, -1, "cxx:set:refused-modified", ctx);
+	} else {
+		float got[2];
+		memcpy(got, after[t].bytes.data(), 8);
+		if (!expect_ok) vf_fail("cxx:set:accepted-out-of-range", "%s accepted although a coordinate is outside [%.9g,%.9g]; '%s' reads (%.9g, %.9g)", what, fprops[p].min, fprops[p].max, fprops[p].get, got[0], got[1]);
+		VF_CHECK(got[0] == x && got[1] == y, "cxx:set:readback", "%s: reads (%.9g, %.9g)", what, got[0], got[1]);
+		same(before, after, t, "cxx:set:other-property-changed", ctx);
+	}
+	o->release();
+	vf_sample("%s -> %s", what, ok ? "accepted" : "refused");
+}
 /* colour: print -> parse */
 static void case_color(uint64_t idx, vf_rng *r)
 {
@@ -473,11 +523,13 @@ static void case_color(uint64_t idx, vf_rng *r)
 
 static uint64_t n_obj() { return vf_thorough ? 200000 : 10000; }
 static uint64_t n_col() { return vf_thorough ? 500000 : 20000; }
-extern "C" uint64_t vf_cases(void) { return n_obj() + n_col() + assign_count(); }
+extern "C" uint64_t vf_cases(void) { return n_obj() + n_col() + assign_count() + fpoint_count(); }
 extern "C" void vf_case(uint64_t idx, vf_rng *r)
 {
 	if (idx < n_obj()) { case_objects(r); return; }
 	idx -= n_obj();
 	if (idx < n_col()) { case_color(idx, r); return; }
-	case_assign(idx - n_col());
+	idx -= n_col();
+	if (idx < assign_count()) { case_assign(idx); return; }
+	case_fpoint(idx - assign_count());
 }
